@@ -56,6 +56,11 @@ CONFIGS = {
         [("startTestRun",), ("test", "a1", "addFailure", None), ("stop",), ("done",)],
         [("shouldStop",), ("test", "b1", "addSuccess", ("x",)), ("shouldStop",), ("stopTestRun",)],
     ],
+    # every worker's forwarder is started by its runner; one of them sets run-level tags
+    "2xrun": [
+        [("startTestRun",), ("test", "a1", "addSuccess", None), ("test", "a2", "addFailure", ("x",))],
+        [("startTestRun",), ("gtags", ("g",), ()), ("test", "b1", "addSkip", None), ("gtags", (), ("g",)), ("test", "b2", "addSuccess", None)],
+    ],
     "2x1": [
         [("test", "a1", "addSuccess", None)],
         [("test", "b1", "addError", ("x",))],
@@ -307,6 +312,7 @@ BOUNDS = {
         ("2x1", (99, 1)),
         ("2x1+fine", (2, 0)),
         ("2x2+fine", (2, 0)),
+        ("2xrun", (2, 0)),
     ],
     "thorough": [
         ("2x1+fine", (99, 0)),
@@ -323,6 +329,8 @@ BOUNDS = {
         ("3x2", (2, 0)),
         ("3x2", (1, 1)),
         ("2x3", (2, 1)),
+        ("2xrun", (3, 1)),
+        ("2xrun+fine", (2, 0)),
     ],
 }
 
